@@ -19,6 +19,9 @@ THEOREMS = [
 HARNESSES = [
     dict(name="rl", pkg="pkg/util/ratelimiter", files=["harness/ratelimiter/zz_verif_c09_test.go"],
          run="TestVerifC09", groups=["rl", "multi"], timeout=300, share=0.7),
+    dict(name="race", pkg="pkg/util/ratelimiter",
+         files=["harness/ratelimiter/zz_verif_c09_test.go", "harness/ratelimiter/zz_verif_c09_race_test.go"],
+         run="TestVerifC09Race", groups=["rl"], timeout=300, share=0.02),
     dict(name="conc", pkg="pkg/util/ratelimiter",
          files=["harness/ratelimiter/zz_verif_c09_test.go", "harness/ratelimiter/zz_verif_c09_conc_test.go"],
          run="TestVerifC09Conc", groups=["rl"], timeout=600, share=0.01, thorough_only=True, race=True),
@@ -84,6 +87,8 @@ def encode(c):
         for op, st in zip(i["ops"], steps):
             if op["op"] == "init":
                 ops.append(C("IInit", Nat(op["spec"]), Z(op["dt"]), L([Z(x) for x in st.get("refs") or []])))
+            elif op["op"] == "close":
+                ops.append(C("IClose", Z(op["dt"]), Z(st.get("code", 0))))
             elif op["op"] == "inherit":
                 refs = [-2] if st.get("code") == 2 else (st.get("refs") or [])
                 ops.append(C("IInherit", Nat(op["spec"]), Nat(st["gen"]), Z(op["dt"]), L([Z(x) for x in refs])))
